@@ -92,3 +92,8 @@ check('C07', 'refmodel', 'exploration', 'runtime value oracle: clip scale fitted
       'min(1, sqrt(kl/|sum<V,D> lr^2|)) at the current step, every layer must be the same multiple of V, the KL bound must hold, kl_clip=None must be accepted and leave R=V; '
       'on 2-4 simulated ranks every rank must use the same scalar under every gradient-worker count.',
       'Factors read from state_dict(); optional probe of _compute_grad_scale is compared when present.', 'DESIGN.md §3 C07')
+
+check('C10', 'refmodel', 'exploration', 'bitwise snapshot monitor around every step()/eval pass + differential run against an identical model without K-FAC',
+      'Generated module trees with unsupported, skipped, frozen and partially frozen layers and low-precision dtypes: parameters, buffers and gradients outside the registered layers must be bitwise '
+      'unchanged by step(), registered gradients keep shape/dtype/device/contiguity and stay finite, eval-mode passes leave K-FAC state unchanged, outputs and autograd gradients equal the twin model\'s.',
+      'Default memory format; twin comparison restricted to float32/float64 parameters.', 'DESIGN.md §3 C10')
